@@ -93,6 +93,9 @@ type Mism struct {
 }
 
 type Outcome struct {
+	BlackBox  bool   `json:"blackbox"`  // the listing was not recognised: judged by result and requests only
+	MultiConv bool   `json:"multiconv"` // the expression converts a multi-valued leaf-list (function / arithmetic operand)
+	InfStr    bool   `json:"infstr"`    // the expression consumes the string 'Infinity' / '-Infinity'
 	ID     int    `json:"id"`
 	Fam    int    `json:"fam"`
 	Expr   string `json:"expr"`
@@ -285,6 +288,8 @@ func replay(args []string) {
 			known := xpm.Recognised(prog)
 			if !known {
 				nunknown++
+				o.BlackBox = true
+				o.MultiConv, o.InfStr = xpm.Consumes(v.Prog)
 			} else if !reflect.DeepEqual(prog, v.Prog) {
 				o.Mism = append(o.Mism, Mism{"prog", v.Prog, prog})
 			}
